@@ -163,7 +163,10 @@ CLAIMED = {
             "fragmented transfer, per SLC request) are MEASURED from the implementation on each run, then TLC proves freshness "
             "for all histories of 6 operations with scaled moduli or yields a counterexample that is replayed at real scale "
             "(R1/R2); sessions advance the real counter to every wrap phase and cross it with every operation kind; the guard "
-            "C17:repeat is evaluated on every connected frame of every session (R3), incl. SLC data-file reads and the data-log queue.",
+            "C17:repeat is evaluated on every connected frame of every session (R3), incl. SLC data-file reads and the data-log queue.  "
+            "Side check: Apalache discharges the inductive invariant 'the count sent last is the predecessor of the next count' "
+            "for the real modulus 65535 and histories of any length (spec/apalache/SeqCountInd.tla, closed forms tied to "
+            "SeqCount.tla by TLC in SeqCountEq.tla) and refutes it for the design before the repair.",
             "Trusted: TLC; the measurement of design parameters through the driver's public generator object.",
             "TLA+ counter model bound to measured parameters, checked with TLC; recorded sessions validated", "5/C17"),
     "C18": ("session",
